@@ -196,6 +196,49 @@ def field_cases(run, rng, quick):
                     qs.append({"q": aq, "obs": obs})
                 cases.append({"idx": idx, "qs": qs})
                 metas.append({"plan": [name, step], "nseg": 2, "deleted": 0})
+    # one query object asked of two indexes whose field of that name differs in one attribute only (signedness,
+    # width, precision step): what it selects depends on the index it is asked of, not on where it was asked before
+    for bits in (8, 16, 32):
+        top = (1 << (bits - 1)) - 1
+        pool = sorted(set([0, 1, 2, 5, 10, 100, top - 1, top, top // 2]))
+        variants = [fields.NUMERIC(int, bits=bits, signed=True), fields.NUMERIC(int, bits=bits, signed=False),
+                    fields.NUMERIC(int, bits=bits, signed=True, shift_step=0 if bits > 8 else 3),
+                    fields.NUMERIC(int, bits=64, signed=True)]
+        rng.shuffle(variants)
+        worlds = []
+        for ftype in variants:
+            ix = RamStorage().create_index(fields.Schema(key=fields.ID(stored=True), num=ftype))
+            w = ix.writer()
+            vals = [rng.choice(pool) for _ in range(10)]
+            for i, v in enumerate(vals):
+                w.add_document(key=u"d%d" % i, num=v)
+            w.commit()
+            worlds.append((ix, vals))
+        rank = dict((v, 2 * i + 1) for i, v in enumerate(pool))
+        shared = []
+        for _ in range(6 if quick else 20):
+            a, b = sorted([rng.choice(pool), rng.choice(pool)])
+            loex, hiex = rng.random() < 0.3, rng.random() < 0.3
+            shared.append((query.NumericRange("num", a, b, startexcl=loex, endexcl=hiex),
+                           {"op": "numrange", "f": "num", "lo": rank[a], "hi": rank[b], "haslo": True, "hashi": True,
+                            "loexcl": loex, "hiexcl": hiex, "b4": 4}))
+        for wi, (ix, vals) in enumerate(worlds):
+            with ix.searcher() as s:
+                idx = {"docs": [{"live": True, "t": {}, "n": {"num": [rank[v]]}, "b4": 4} for v in vals]}
+                qs = []
+                for q, aq in shared:
+                    obs = []
+                    try:
+                        obs.append({"kind": "ids", "path": "%d-bit: a NumericRange object asked of index %d of %d with differently declared fields"
+                                    % (bits, wi + 1, len(worlds)), "ids": sorted(int(d) for d in s.docs_for_query(q))})
+                        obs.append({"kind": "atleast", "path": "estimate_size of the shared range object",
+                                    "n": int(q.estimate_size(s.reader()))})
+                    except Exception as ex:
+                        obs.append({"kind": "error", "path": "shared NumericRange", "err": type(ex).__name__, "msg": str(ex)[:120]})
+                    run.count()
+                    qs.append({"q": aq, "obs": obs})
+                cases.append({"idx": idx, "qs": qs})
+                metas.append({"plan": ["shared-range-object", bits], "nseg": 1, "deleted": 0})
     return cases, metas, flags
 
 
